@@ -65,6 +65,20 @@ theorem shipped_units_render_to_themselves (i : UId) (hi : i < init.units.length
   simp only [Bool.and_eq_true, List.all_eq_true, decide_eq_true_eq] at hk
   exact C13.rendered_terms_are_the_unit init_ginv init_canon hi hb ht ⟨hk.1, hk.2⟩ ops j r
 
+theorem init_baseInv : BaseInv init := by
+  intro u hu f hf
+  have hb := checkBaseFactors_sound (List.all_eq_true.mp init_base_factors u hu) f hf
+  have hv := init_ginv.1.1.facValid u hu f hf
+  exact ⟨hv, hb.1, hb.2⟩
+
+/-- **C13 for every state reachable from the imported library**: whatever history created the unit,
+    if its prefix is pushable its rendered terms evaluate — after any further history — to that unit. -/
+theorem reachable_units_render_to_themselves (ops₁ : List Op) (i : UId) (hi : i < (run init ops₁).units.length)
+    (ts : List (Pfx × UId × Int)) (ht : unitTermList ((run init ops₁).unit! i) = .ok ts)
+    (ops₂ : List Op) (j : UId)
+    (r : ((termsExpr (run init ops₁).one ts).eval (run (run init ops₁) ops₂)).2 = .ok j) : j = i :=
+  C13.rendered_terms_are_the_unit_reachable init_ginv init_canon init_baseInv ops₁ hi ht ops₂ j r
+
 /-- one family case: (p · u)^e built by the arithmetic, rendered, lexed, parsed, transformed -/
 def roundTripCase (c : Nat × Int × UId × Int) : Bool :=
   let s0 := init
